@@ -212,6 +212,22 @@ static void del_slot (ent_t* p, long key)
 	else { hawk_ooch_t kb[32]; hawk_oow_t kl; mkkey (key, kb, &kl); hawk_map_delete (((hawk_val_map_t*)p->ptr)->map, kb, kl); }
 }
 
+/* Container elements that are containers go to the smallest index/key not in use, starting at 0, so that
+ * the first and the small slots of an array (index 0 included) and re-used slots are exercised.  The two leaf
+ * elements of an array sit at indices 3 and 5 (gaps at 4 and below until filled). */
+#define ARR_LEAF1 3
+#define ARR_LEAF2 5
+static long free_key (ent_t* p)
+{
+	long k; int i;
+	for (k = 0; ; k++)
+	{
+		if (p->is_arr && (k == ARR_LEAF1 || k == ARR_LEAF2)) continue;
+		for (i = 0; i < p->nslots; i++) if (p->key[i] == k) break;
+		if (i >= p->nslots) return k;
+	}
+}
+
 static int find_slot (ent_t* p, int child)
 {
 	int i;
@@ -255,12 +271,12 @@ int main (int argc, char** argv)
 			/* objects freed by a collection inside the allocation may have had this address */
 			for (i = 0; i < ntab; i++) if (tab[i].live && tab[i].ptr == v) { tab[i].live = 0; tab[i].holders = 0; pend[npend++] = i; }
 			e = &tab[ntab]; memset (e, 0, sizeof(*e));
-			e->ptr = v; e->live = 1; e->is_arr = is_arr; e->holders = 1; e->nextkey = is_arr ? 2 : 1; e->nslots = 0;
+			e->ptr = v; e->live = 1; e->is_arr = is_arr; e->holders = 1; e->nextkey = 0; e->nslots = 0;
 			/* leaf elements as in `x[1] = "leaf"`: a heap string and a small integer */
 			{
 				hawk_val_t* s = hawk_rtx_makestrvalwithbcstr(rtx, "leaf-value-of-some-length");
 				hawk_val_t* iv = hawk_rtx_makeintval(rtx, 123456789012345L);
-				if (!s || !iv || set_slot(e, is_arr ? 0 : -1, s) <= -1 || set_slot(e, is_arr ? 1 : -2, iv) <= -1) { printf("alloc-failed\n"); fflush(stdout); return 2; }
+				if (!s || !iv || set_slot(e, is_arr ? ARR_LEAF1 : -1, s) <= -1 || set_slot(e, is_arr ? ARR_LEAF2 : -2, iv) <= -1) { printf("alloc-failed\n"); fflush(stdout); return 2; }
 			}
 			ntab++;
 			printf("r=%d", ntab - 1);
@@ -271,7 +287,7 @@ int main (int argc, char** argv)
 			if (!LIVE(x) || !LIVE(y) || tab[x].nslots >= MAXSLOT) { printf("r=ERR"); dump (); }
 			else
 			{
-				ent_t* p = &tab[x]; long k = p->nextkey++;
+				ent_t* p = &tab[x]; long k = free_key(p);
 				if (set_slot(p, k, tab[y].ptr) <= -1) { printf("link-failed\n"); fflush(stdout); return 2; }
 				p->key[p->nslots] = k; p->child[p->nslots] = (int)y; p->nslots++;
 				printf("r=ok"); dump ();
